@@ -225,7 +225,12 @@ class Explorer:
             raise HarnessError(f"edit tree of {node.name} does not sum to one: {total}")
         for res, p in results:
             ctx.transition()
-            ns = space.successor(st, spec, res, new_args)
+            try:
+                ns = space.successor(st, spec, res, new_args)
+            except ValueError as e:
+                # the new trace's choice map cannot be read as a finite map (e.g. a vector where a scalar belongs)
+                self.fail_any(op, spec.label or op, "choices:malformed", dict(history=self.hist(st, spec), msg=str(e)[:200]))
+                continue
             succs.append(ns)
             tkey = (node.name, st.key(), repr(spec.describe()), asg_key(ns.asg))
             ctx.ev(tkey, nontrivial=True)
@@ -310,9 +315,13 @@ class Explorer:
             self.ctx.note("update_with_fresh_choices")
         # discard: exactly the previous values at the overwritten addresses (address set unchanged)
         if "discard" in res and set(ns.asg) == set(st.asg) and not may_resample and not changed_prefixes:
-            disc = choices_to_asg(self.space.paths_all, res["discard"])
+            try:
+                disc = choices_to_asg(self.space.paths_all, res["discard"])
+            except ValueError as e:
+                self.fail("C05", "update", lab, "discard:malformed", dict(history=h, msg=str(e)))
+                disc = None
             want = {p_: st.asg[p_] for p_ in c if p_ in st.asg}
-            if set(disc) != set(want) or any(not _val_eq(disc[p_], want[p_]) for p_ in want):
+            if disc is not None and (set(disc) != set(want) or any(not _val_eq(disc[p_], want[p_]) for p_ in want)):
                 self.fail("C05", "update", lab, "discard", dict(history=h, impl={repr(k): v for k, v in disc.items()}, ref={repr(k): v for k, v in want.items()}))
 
     def oracle_regenerate(self, st, spec, res, ns, w, old_ref, new_ref, new_R):
